@@ -66,3 +66,22 @@ Definition c_send (c : bool * app) : val :=
   | SRaised x closes => VList [VStr (A "raised"); VInt (Z.of_N x); VBool closes]
   | SFailed t closes => VList [VStr (A "failed"); VErr t; VBool closes]
   end.
+
+(* ------------------------------------------------------------------ histories on ONE object *)
+(* several sub-requests sent through one Request object: the closure lists are per call, so the
+   model of a history is the map of the single-call model *)
+Definition c_call_history (l : list (bool * (bool * app))) : val :=
+  VList (map (fun c : bool * (bool * app) => if fst c then c_send (snd c) else c_call_application (snd c)) l).
+
+(* as_bytes called repeatedly on one request: each call continues from the request the previous
+   call left behind *)
+Fixpoint as_bytes_history (sks : list skip) (e : env) : list val :=
+  match sks with
+  | [] => []
+  | sk :: r =>
+      match as_bytes sk e with
+      | Ok (b, e1) => VList [VStr b; v_items (hdr_items (e_hdrs e1))] :: as_bytes_history r e1
+      | Er t => VErr t :: as_bytes_history r e
+      end
+  end.
+Definition c_as_bytes_history (c : list skip * env) : val := VList (as_bytes_history (fst c) (snd c)).
